@@ -151,6 +151,47 @@ example : ((fun (s : S) => (s.cleaned, s.retries, s.requests, s.upActive, s.down
 
 /-! ### ==== proxy6: late response during the back-off — end ==== -/
 
+/-! ### ==== proxy10: the back-off sleep of `doRetry` is a state of the machine — begin ==== -/
+
+/-- **backoff_ledger**: `ledger_exact`, `cur_nonneg`, `quiescent_zero`, `limit_trips`, `retry_admission` quantify over EVERY
+schedule of the extended label type — every label may fire while the worker is asleep in `doRetry`'s back-off (TerminateStream,
+the global timer also inside `setupRetry`, the client's departure, late frames, resets …), `work` there is the wake-up.  In the
+back-off itself, on every schedule, the request holds no client stream — no requests slot, no upstream gauge unit — whatever
+landed during the sleep; and the label that only exists there (`gtInSetup`) changes no counter. -/
+theorem backoff_ledger (c : Cfg) (ar aq : Nat) (l : List Label) (hb : backoff (reach c ar aq l) = true) :
+    (reach c ar aq l).requests = aq ∧ (reach c ar aq l).upActive = 0 ∧ (reach c ar aq l).downActive = 1 ∧
+    (∀ b, (reach c ar aq (l ++ [.gtInSetup b])).retries = (reach c ar aq l).retries ∧
+          (reach c ar aq (l ++ [.gtInSetup b])).requests = (reach c ar aq l).requests ∧
+          (reach c ar aq (l ++ [.gtInSetup b])).upActive = (reach c ar aq l).upActive) := by
+  have hi := inv_run c ar aq l
+  simp only [backoff, Bool.and_eq_true, beq_iff_eq] at hb
+  have hcl : (reach c ar aq l).cleaned = false := by
+    have := hi.k0; simp only [K0] at this; rw [hb.1] at this; simpa using this
+  have hlc := hi.k23 hcl (Or.inr hb.2)
+  obtain ⟨_, h2, h3, h4⟩ := ledger_exact c ar aq l
+  refine ⟨by rw [h2]; simp [heldRequests, hlc], by rw [h3, hlc]; rfl, by rw [h4, hcl]; rfl, fun b => ?_⟩
+  simp only [reach, run, List.foldl_append, List.foldl_cons, List.foldl_nil, step, gtInSetup]
+  split <;> exact ⟨rfl, rfl, rfl⟩
+
+/-- non-vacuity: a retry is set up with `max_retries = 1` (its slot held), TerminateStream lands in the back-off, the worker
+wakes: no attempt 1, the slot is given back, every gauge is back -/
+example : ((fun (s : S) => (s.cleaned, s.retries, s.requests, s.upActive, s.downActive, s.trace))
+    (reach { retryOn := true, numRetries := 1, maxRetries := 1, maxRequests := 1 } 0 0
+      (List.replicate 12 .work ++ [.upReset 0 .StreamConnectionFailed, .work, .terminate 418] ++ List.replicate 4 .work))) =
+    (true, 0, 0, 0, 0, [.un 0, .uh 0 true, .dh 418 true, .log 418 0x2000]) := by decide
+/-- … in the back-off itself the retries slot is held, nothing else -/
+example : ((fun (s : S) => (backoff s, s.retries, s.requests, s.upActive))
+    (reach { retryOn := true, numRetries := 1, maxRetries := 1, maxRequests := 1 } 0 0
+      (List.replicate 12 .work ++ [.upReset 0 .StreamConnectionFailed, .work]))) = (true, 1, 0, 0) := by decide
+/-- the global timer callback lands inside `setupRetry`: the wake-up answers 504, the slot is given back (before fac205b27
+attempt 1 was created here and held its requests slot and gauge unit for ever) -/
+example : ((fun (s : S) => (s.cleaned, s.retries, s.requests, s.upActive, s.downActive))
+    (reach { retryOn := true, numRetries := 1, maxRetries := 1, maxRequests := 1 } 0 0
+      (List.replicate 12 .work ++ [.upReset 0 .StreamConnectionFailed, .work, .gtInSetup true] ++ List.replicate 4 .work))) =
+    (true, 0, 0, 0, 0) := by decide
+
+/-! ### ==== proxy10 — end ==== -/
+
 /-!
 ## The TCP proxy (`pkg/filter/network/streamproxy`): the cluster's `Connections()` resource and the connection gauges
 
